@@ -108,10 +108,14 @@ def build_functor(fspec, cls):
         by_name = {}
         for box, img in ar.items():
             by_name.setdefault(name_key(box), []).append(img)
+        # objects likewise: a total function of the object's name (it is only
+        # ever asked about generating objects, adjoints are the library's job)
+        ob_n = {n: specs.ty(cls, img) for n, img in obmap.items()}
+        ob_f = (lambda t: ob_d[t]) if cls == "cat"\
+            else (lambda t: ob_n[t[0].name])
         if all(len(v) == 1 for v in by_name.values()):
-            return m.Functor(lambda t: ob_d[t],
-                             lambda f: by_name[name_key(f)][0])
-        return m.Functor(lambda t: ob_d[t], lambda f: ar_d[f])
+            return m.Functor(ob_f, lambda f: by_name[name_key(f)][0])
+        return m.Functor(ob_f, lambda f: ar_d[f])
     return m.Functor(ob, ar)
 
 
